@@ -86,7 +86,7 @@ func init() {
 		scripts := []string{"w3", "w3,c", "c", "w3,w2", "w3,w2,c", "s", "w3,s", "s,c", "w3,s,c", "w9,c", "w3,c|w2", "w3|c", "c|c"}
 		for _, sc := range scripts {
 			for _, bufSize := range []int{8, 2} {
-				for _, extra := range []string{"-", "out", "trigger", "pollclose", "rderr"} {
+				for _, extra := range []string{"-", "out", "trigger", "pollclose", "rderr", "late-ctl"} {
 					if bufSize == 2 && extra != "-" {
 						continue
 					}
@@ -94,6 +94,9 @@ func init() {
 						continue
 					}
 					if extra == "rderr" && !(sc == "w3" || sc == "w3,w2" || sc == "w3,c" || sc == "w9,c") {
+						continue
+					}
+					if extra == "late-ctl" && !(sc == "c" || sc == "w3,c" || sc == "w3,s") {
 						continue
 					}
 					if extra == "out" && (strings.Contains(sc, "s") || strings.Contains(sc, "c")) {
@@ -121,11 +124,13 @@ func pollLiveScenario(script string, bufSize int, extra string) *vsched.Scenario
 	var epfd, evfd int
 	pollClosed := false
 	wakeupsBefore, wakeupsAfter := 0, 0
+	lateCtl := ""
 	outWant := 20000
 	sc := &vsched.Scenario{Name: "poll.live", Horizon: 6000}
 	sc.Body = func() {
 		stubs, sentTo, peerClosed, outRecv, pollClosed = nil, nil, nil, nil, false
 		wakeupsBefore, wakeupsAfter = 0, 0
+		lateCtl = ""
 		netpoll.VerifReset(1)
 		netpoll.Initialize()
 		_, _, polls := netpoll.VerifManagerState()
@@ -185,6 +190,18 @@ func pollLiveScenario(script string, bufSize int, extra string) *vsched.Scenario
 			})
 		}
 		switch extra {
+		case "late-ctl":
+			// a writer that lost the race against the hang-up: its interest changes arrive after the
+			// poller has deregistered the descriptor (which is still open). They must fail and must
+			// not bring the descriptor back: no callback may fire for it any more.
+			vsched.Go("late-writer", func() {
+				vsched.WaitCond("hangup-reported", func() bool { return stubs[0].hups > 0 })
+				e1 := stubs[0].op.Control(netpoll.PollR2RW)
+				e2 := stubs[0].op.Control(netpoll.PollRW2R)
+				lateCtl = fmt.Sprintf("%v|%v", e1 != nil, e2 != nil)
+				vsched.LogEvent("late-ctl:done")
+				vsched.Settle("after-late-ctl")
+			})
 		case "trigger":
 			vsched.Go("trigger", func() {
 				poll.Trigger()
@@ -218,6 +235,20 @@ func pollLiveScenario(script string, bufSize int, extra string) *vsched.Scenario
 		vs := baseChecks("C11", ex, false)
 		add := func(sig, msg string) { vs = append(vs, vsched.Violation{Sig: "C11 " + sig, Msg: msg}) }
 		if ex.End != vsched.EndQuiescent {
+			// safety clauses hold at every point of every execution, also one that was cut off
+			for i, s := range stubs {
+				tag := fmt.Sprintf("op%d", i)
+				if s.hups > 1 {
+					add("hup-twice", fmt.Sprintf("%s: OnHup reported %d times (execution ended by %s)", tag, s.hups, ex.End))
+				}
+				if len(s.afterHup) > 0 {
+					n := len(s.afterHup)
+					if n > 6 {
+						n = 6
+					}
+					add("callback-after-hup", fmt.Sprintf("%s: callbacks after the hang-up was reported: %v... (execution ended by %s)", tag, s.afterHup[:n], ex.End))
+				}
+			}
 			return vs
 		}
 		led := vsyscall.L()
@@ -302,6 +333,9 @@ func pollLiveScenario(script string, bufSize int, extra string) *vsched.Scenario
 					}
 				}
 			}
+		}
+		if extra == "late-ctl" && l.count("late-ctl:done") == 1 && lateCtl != "true|true" {
+			add("late-control-succeeded", fmt.Sprintf("an interest change on a descriptor the poller had already deregistered after its hang-up did not fail (R2RW failed|RW2R failed = %s): the descriptor is registered again", lateCtl))
 		}
 		if extra == "trigger" && l.count("triggered") != 1 {
 			add("trigger-blocked", "Trigger did not return")
